@@ -174,13 +174,15 @@ CHECKS["C04"]["assumptions"] = list(_qbft_assumptions) + ["round timers: harness
 CHECKS["C16"] = {
     "pkg": "./core",
     "parallel": 4,
-    "quick": [{"harness": "VerifC16Deadliner", "params": {"k": [2, 3]}, "prune": 1000, "timeout_ms": 120000}],
-    "thorough": [{"harness": "VerifC16Deadliner", "params": {"k": [2, 3, 4]}, "prune": 1000, "timeout_ms": 600000, "case_timeout_s": 14000}],
+    "quick": [{"harness": "VerifC16Deadliner", "params": {"k": [2, 3]}, "prune": 1000, "timeout_ms": 120000},
+              {"harness": "VerifC16Burst", "params": {"burst": [3, 10, 11]}}],
+    "thorough": [{"harness": "VerifC16Deadliner", "params": {"k": [2, 3, 4]}, "prune": 1000, "timeout_ms": 600000, "case_timeout_s": 14000},
+                 {"harness": "VerifC16Burst", "params": {"burst": [1, 2, 3, 5, 8, 10, 11, 12, 13]}}],
     "bounds": {
-        "quick": "k=2 registrations over 3 duty slots (repeats allowed), each of an expiring or an exempt type, deadlines and clock advances symbolic (8-bit offsets), every order in which ready events (registration, timer) are taken; consumer reads whenever the deadliner goroutine is idle",
+        "quick": "burst scenario (concrete): 3, 10 and 11 distinct duties sharing one deadline, registered before it, consumer reading whenever the deadliner is idle (KNOWN-FINDING C16-a at 11: the 10-slot output buffer drops the eleventh); k=2 registrations over 3 duty slots (repeats allowed), each of an expiring or an exempt type, deadlines and clock advances symbolic (8-bit offsets), every order in which ready events (registration, timer) are taken; consumer reads whenever the deadliner goroutine is idle",
         "thorough": "k<=4 registrations",
     },
-    "outside": "more than 10 duties expiring before the consumer is scheduled (output buffer overflow, candidate C16-a in DESIGN.md: needs k>10); Add()'s own select on quit; real timers (a harness clock implements clockwork.Clock; time.Time arithmetic is modelled as int64 nanoseconds); re-registration of a duty at the very instant of its deadline after it was scheduled before",
+    "outside": "Add()'s own select on quit; real timers (a harness clock implements clockwork.Clock; time.Time arithmetic is modelled as int64 nanoseconds); re-registration of a duty at the very instant of its deadline after it was scheduled before",
     "assumptions": [
         "time.Time modelled as int64 nanoseconds (Sub/Before/After/Add intrinsics); far-future sentinel date = 2^62",
         "harness clock: a timer fires when the clock reading reaches creation time + duration; only the environment advances the clock",
@@ -242,33 +244,43 @@ CHECKS["C06"] = {
     "pkg": "./core/dutydb",
     "parallel": 8,
     "quick": [
-        {"harness": "VerifC06Att", "params": {"k": 3, "ops": _c06_patterns(3), "rev": 0, "cont": 1}},
-        {"harness": "VerifC06Att", "params": {"k": 4, "ops": [30, 33, 19, 27], "rev": 0, "cont": 1}},
-        {"harness": "VerifC06Att", "params": {"k": 3, "ops": [0, 3, 9, 18], "rev": 1, "cont": 1}, "reversemaps": True},
+        {"harness": "VerifC06Att", "params": {"cancel": 0, "k": 3, "ops": _c06_patterns(3), "rev": 0, "cont": 1}},
+        {"harness": "VerifC06Att", "params": {"cancel": 0, "k": 4, "ops": [30, 33, 19, 27], "rev": 0, "cont": 1}},
+        {"harness": "VerifC06Att", "params": {"cancel": 0, "k": 3, "ops": [0, 3, 9, 18], "rev": 1, "cont": 1}, "reversemaps": True},
         {"harness": "VerifC06Await", "params": {}},
-        {"harness": "VerifC06Contrib", "params": {"k": 3, "ops": _c06_patterns(3), "plural": 0, "rev": 0}},
-        {"harness": "VerifC06Contrib", "params": {"k": 3, "ops": [0, 1, 3, 9, 10], "plural": 1, "rev": 0}},
-        {"harness": "VerifC06Contrib", "params": {"k": 3, "ops": [0, 3, 9], "plural": 0, "rev": 1}, "reversemaps": True},
-        {"harness": "VerifC06Proposal", "params": {"k": 3, "ops": _c06_patterns(3)}},
+        {"harness": "VerifC06Contrib", "params": {"cancel": 0, "k": 3, "ops": _c06_patterns(3), "plural": 0, "rev": 0}},
+        {"harness": "VerifC06Contrib", "params": {"cancel": 0, "k": 3, "ops": [0, 1, 3, 9, 10], "plural": 1, "rev": 0}},
+        {"harness": "VerifC06Contrib", "params": {"cancel": 0, "k": 3, "ops": [0, 3, 9], "plural": 0, "rev": 1}, "reversemaps": True},
+        {"harness": "VerifC06Proposal", "params": {"cancel": 0, "k": 3, "ops": _c06_patterns(3)}},
         {"harness": "VerifC06Agg", "params": {}},
+        # a waiting caller gives up just before the next Store (cancel mask: which query operations)
+        {"harness": "VerifC06Proposal", "params": {"k": 3, "ops": [4, 1, 13, 12], "cancel": [1, 2, 3]}},
+        {"harness": "VerifC06Contrib", "params": {"k": 3, "ops": [4, 1], "plural": 0, "rev": 0, "cancel": [1, 2]}},
+        {"harness": "VerifC06Att", "params": {"k": 3, "ops": [4, 1], "rev": 0, "cont": 1, "cancel": [1, 2]}},
+        # Store(X) overlapping with X's expiry and another Store that drains it (interference at lock boundaries)
+        {"harness": "VerifC06Expiry", "params": {}},
     ],
     "thorough": [
-        {"harness": "VerifC06Contrib", "params": {"k": 4, "ops": _c06_patterns(4), "plural": 0, "rev": 0}, "timeout_ms": 300000},
-        {"harness": "VerifC06Contrib", "params": {"k": 4, "ops": _c06_patterns(4, range(0, 81, 2)), "plural": 1, "rev": 0}, "timeout_ms": 300000},
-        {"harness": "VerifC06Contrib", "params": {"k": 3, "ops": _c06_patterns(3), "plural": 0, "rev": 1}, "reversemaps": True},
-        {"harness": "VerifC06Proposal", "params": {"k": 4, "ops": _c06_patterns(4)}},
-        {"harness": "VerifC06Proposal", "params": {"k": 5, "ops": _c06_patterns(5, range(0, 243, 5))}},
+        {"harness": "VerifC06Contrib", "params": {"cancel": 0, "k": 4, "ops": _c06_patterns(4), "plural": 0, "rev": 0}, "timeout_ms": 300000},
+        {"harness": "VerifC06Contrib", "params": {"cancel": 0, "k": 4, "ops": _c06_patterns(4, range(0, 81, 2)), "plural": 1, "rev": 0}, "timeout_ms": 300000},
+        {"harness": "VerifC06Contrib", "params": {"cancel": 0, "k": 3, "ops": _c06_patterns(3), "plural": 0, "rev": 1}, "reversemaps": True},
+        {"harness": "VerifC06Proposal", "params": {"cancel": 0, "k": 4, "ops": _c06_patterns(4)}},
+        {"harness": "VerifC06Proposal", "params": {"cancel": 0, "k": 5, "ops": _c06_patterns(5, range(0, 243, 5))}},
         {"harness": "VerifC06Agg", "params": {}, "cross": True},
-        {"harness": "VerifC06Att", "params": {"k": 4, "ops": _c06_patterns(4), "rev": 0, "cont": 1}, "timeout_ms": 300000},
-        {"harness": "VerifC06Att", "params": {"k": 4, "ops": _c06_patterns(4, range(0, 81, 3)), "rev": 1, "cont": 1}, "reversemaps": True, "timeout_ms": 300000},
-        {"harness": "VerifC06Att", "params": {"k": 5, "ops": [90, 99, 57, 81, 84, 111, 120], "rev": 0, "cont": 1}, "timeout_ms": 300000},
+        {"harness": "VerifC06Proposal", "params": {"k": 4, "ops": _c06_patterns(4, range(0, 81, 3)), "cancel": [1, 2, 5]}},
+        {"harness": "VerifC06Contrib", "params": {"k": 3, "ops": _c06_patterns(3), "plural": 0, "rev": 0, "cancel": [1, 2, 3]}},
+        {"harness": "VerifC06Att", "params": {"k": 3, "ops": _c06_patterns(3), "rev": 0, "cont": 1, "cancel": [1, 2, 3]}},
+        {"harness": "VerifC06Expiry", "params": {}, "cross": True},
+        {"harness": "VerifC06Att", "params": {"cancel": 0, "k": 4, "ops": _c06_patterns(4), "rev": 0, "cont": 1}, "timeout_ms": 300000},
+        {"harness": "VerifC06Att", "params": {"cancel": 0, "k": 4, "ops": _c06_patterns(4, range(0, 81, 3)), "rev": 1, "cont": 1}, "reversemaps": True, "timeout_ms": 300000},
+        {"harness": "VerifC06Att", "params": {"cancel": 0, "k": 5, "ops": [90, 99, 57, 81, 84, 111, 120], "rev": 0, "cont": 1}, "timeout_ms": 300000},
         {"harness": "VerifC06Await", "params": {}, "cross": True},
     ],
     "bounds": {
-        "quick": "sync contributions (2 slots x 2 subcommittees x 2 block roots, symbolic aggregation bits and signature; two-entry sets as two validators or as one validator's plural SyncContributions) and proposals (2 slots, symbolic graffiti, phase0 blocks): every sequence of k=3 operations Store / blocking query / expiry against an exact ghost store, failed stores included; aggregated attestations: store, read, store under the same key with symbolic bits and signature, read (KNOWN-FINDING C06-agg); attester duties: every sequence of k=3 operations (Store of a two-entry set / registration of a blocking query / expiry of a slot; 27 kind patterns, plus 4 patterns of length 4) over 2 slots x 3 committee indices x 2 validator indices, with slot, committee, validator, head, source and target symbolic; both map iteration orders for the two-entry sets on selected patterns; the real AwaitAttestation immediate and blocked-then-woken; expired duty refused",
+        "quick": "cancelled queries (a waiting caller gives up just before the next Store) in selected 3-operation patterns for all three query kinds; Store(X) overlapping with the expiry of X and another Store that drains it (interference at Store's lock boundaries, deadliner that refuses expired slots): no data of an expired duty is kept; sync contributions (2 slots x 2 subcommittees x 2 block roots, symbolic aggregation bits and signature; two-entry sets as two validators or as one validator's plural SyncContributions) and proposals (2 slots, symbolic graffiti, phase0 blocks): every sequence of k=3 operations Store / blocking query / expiry against an exact ghost store, failed stores included; aggregated attestations: store, read, store under the same key with symbolic bits and signature, read (KNOWN-FINDING C06-agg); attester duties: every sequence of k=3 operations (Store of a two-entry set / registration of a blocking query / expiry of a slot; 27 kind patterns, plus 4 patterns of length 4) over 2 slots x 3 committee indices x 2 validator indices, with slot, committee, validator, head, source and target symbolic; both map iteration orders for the two-entry sets on selected patterns; the real AwaitAttestation immediate and blocked-then-woken; expired duty refused",
         "thorough": "all 81 kind patterns of length 4, selected patterns of length 5; contributions and proposals with k=4 (proposals k=5 selected)",
     },
-    "outside": "aggregated attestations beyond the two-store history of VerifC06Agg and other than phase0-versioned ones (Electra committee bits); proposals other than phase0 blocks; cancellation of queries; real SSZ/JSON (Clone = structural deep copy, String()/HashTreeRoot() = ideal injective functions of all fields); arbitrary pre-emption (one mutex: sequences of whole critical sections)",
+    "outside": "aggregated attestations beyond the two-store history of VerifC06Agg and other than phase0-versioned ones (Electra committee bits); proposals other than phase0 blocks; real SSZ/JSON (Clone = structural deep copy, String()/HashTreeRoot() = ideal injective functions of all fields); arbitrary pre-emption (one mutex: sequences of whole critical sections)",
     "assumptions": [
         "core data Clone() is a structural deep copy; go-eth2-client String() and HashTreeRoot() are injective functions of the full field tuple",
         "blocking queries are registered exactly as AwaitAttestation does (append + resolve under the lock) and observed through their response channels",
@@ -286,14 +298,16 @@ CHECKS["C05"] = {
         {"harness": "VerifC05Tamper", "params": {"target": [1, 2, 3], "prime": 1}, "redirects": _C5R},
         {"harness": "VerifC05Limits", "params": {"nj": [2, 3], "nvals": [6, 7], "expired": 0}, "redirects": _C5R},
         {"harness": "VerifC05Limits", "params": {"nj": 1, "nvals": [4, 5], "expired": [0, 1]}, "redirects": _C5R},
+        {"pkg": "./core", "harness": "VerifGater", "params": {"slotdur_ms": [12000, 8192], "clockbits": 46}},
     ],
     "thorough": [
         {"harness": "VerifC05Tamper", "params": {"target": [0, 1, 2, 3, 4, 5, 6, 7], "prime": 0}, "redirects": _C5R, "cross": True},
         {"harness": "VerifC05Tamper", "params": {"target": [1, 2, 3, 4], "prime": 1}, "redirects": _C5R, "cross": True},
         {"harness": "VerifC05Limits", "params": {"nj": [0, 1, 2, 3], "nvals": [0, 2, 4, 5, 6, 7, 8, 9], "expired": [0, 1]}, "redirects": _C5R},
+        {"pkg": "./core", "harness": "VerifGater", "params": {"slotdur_ms": [12000, 4000], "clockbits": [46, 52]}, "timeout_ms": 900000, "case_timeout_s": 4000},
     ],
     "bounds": {
-        "quick": "4 peers; a consensus wire message with 2 justifications and 2 values, every scalar field symbolic (type, duty slot/type, peer, round, prepared round, presence of value / prepared-value hashes, value bytes), built and signed through the real signMsg; one alteration of any signed field of the main message or of either justification (type, duty slot, duty type, peer index, round, prepared round, value hash, prepared value hash, signature byte, missing signature, signer substitution) or of the referenced value; a correctly signed justification taken from another duty (other slot or other duty type); the altered copy presented after the genuine message was accepted on the same node; a receive deadline that has already fired; count limits with 1 peer (<=2 justifications, <=2(j+1) values), gated duty (slot >= 200), expired duty",
+        "quick": "duty gater: the real core.NewDutyGater closure with a symbolic clock (below 2^46 ns after genesis) and a symbolic 64-bit wire slot and type: allowed exactly when the type is valid and the epoch is at most two ahead; 4 peers; a consensus wire message with 2 justifications and 2 values, every scalar field symbolic (type, duty slot/type, peer, round, prepared round, presence of value / prepared-value hashes, value bytes), built and signed through the real signMsg; one alteration of any signed field of the main message or of either justification (type, duty slot, duty type, peer index, round, prepared round, value hash, prepared value hash, signature byte, missing signature, signer substitution) or of the referenced value; a correctly signed justification taken from another duty (other slot or other duty type); the altered copy presented after the genuine message was accepted on the same node; a receive deadline that has already fired; count limits with 1 peer (<=2 justifications, <=2(j+1) values), gated duty (slot >= 200), expired duty",
         "thorough": "same, every VC decided by z3 and cvc5; all count combinations up to 3 justifications / 9 values",
     },
     "outside": "the real protobuf deterministic marshalling, SSZ merkleization and secp256k1 (hashProto = ideal injective hash of all message fields, signatures = ideal tokens naming signer and hash: 'a newly added proto field is covered by the signature' holds by the stub, not by the check); arbitrary byte strings on the wire (protobuf decoding); maxConsensusMsgSize (a libp2p option); the decided value handed to subscribers",
@@ -402,6 +416,8 @@ CHECKS["C18"] = {
         {"pkg": "./core/dutydb", "harness": "VerifC18Contrib", "params": {}},
         {"pkg": "./core/dutydb", "harness": "VerifC18Proposal", "params": {}},
         {"pkg": "./core/dutydb", "harness": "VerifC18Agg", "params": {}},
+        {"pkg": "./core/dutydb", "harness": "VerifC18Blocked", "params": {}},
+        {"pkg": "./core", "harness": "VerifC18Clone", "params": {"which": [0, 1, 2, 3, 4, 5, 6], "real_clone": 1}},
         {"pkg": "./core/parsigdb", "harness": "VerifC18ParSigDB", "params": {}},
         {"pkg": "./core/aggsigdb", "harness": "VerifC18AggSigDB", "params": {}},
         {"pkg": "./core/sigagg", "harness": "VerifC18SigAgg", "params": {}},
@@ -411,18 +427,20 @@ CHECKS["C18"] = {
         {"pkg": "./core/dutydb", "harness": "VerifC18Contrib", "params": {}, "cross": True},
         {"pkg": "./core/dutydb", "harness": "VerifC18Proposal", "params": {}, "cross": True},
         {"pkg": "./core/dutydb", "harness": "VerifC18Agg", "params": {}, "cross": True},
+        {"pkg": "./core/dutydb", "harness": "VerifC18Blocked", "params": {}, "cross": True},
+        {"pkg": "./core", "harness": "VerifC18Clone", "params": {"which": [0, 1, 2, 3, 4, 5, 6], "real_clone": 1}, "cross": True},
         {"pkg": "./core/parsigdb", "harness": "VerifC18ParSigDB", "params": {}, "cross": True},
         {"pkg": "./core/aggsigdb", "harness": "VerifC18AggSigDB", "params": {}, "cross": True},
         {"pkg": "./core/sigagg", "harness": "VerifC18SigAgg", "params": {}, "cross": True},
     ],
     "bounds": {
-        "quick": "dutydb also for sync contributions, proposals (phase0 block) and aggregated attestations (first store and a second store of the same key; callers mutate their inputs afterwards; two reads; a reader mutates its result); object-identity (may-alias) queries over the engine's heap after one concrete operation sequence per component with symbolic contents: dutydb (store attestation, mutate input, read x3 incl. committee-0 alias, mutate result, read), parsigdb (two internal stores reaching threshold 2 of 3, two internal and two threshold subscribers; inputs / stored entries / every subscriber's objects pairwise), aggsigdb MemDBV2 (store, mutate input, read x2, mutate result, read), sigagg (two subscribers)",
+        "quick": "Clone implementations with their own bodies executed (voluntary exit, randao, attestation, sync message, attestation data, sync contribution, a partial-signature set): equal content, no shared pointer/slice, SetSignature returns a private copy; dutydb readers that were already waiting when the data is stored (blocked-then-woken path) and a later reader; dutydb also for sync contributions, proposals (phase0 block) and aggregated attestations (first store and a second store of the same key; callers mutate their inputs afterwards; two reads; a reader mutates its result); object-identity (may-alias) queries over the engine's heap after one concrete operation sequence per component with symbolic contents: dutydb (store attestation, mutate input, read x3 incl. committee-0 alias, mutate result, read), parsigdb (two internal stores reaching threshold 2 of 3, two internal and two threshold subscribers; inputs / stored entries / every subscriber's objects pairwise), aggsigdb MemDBV2 (store, mutate input, read x2, mutate result, read), sigagg (two subscribers)",
         "thorough": "same with both solvers",
     },
-    "outside": "whether the real Clone implementations (JSON/SSZ round trips) are deep: Clone is a structural deep copy in the engine, so the claim is 'components clone at every boundary'; versioned types other than their phase0 form; fetcher / scheduler / validatorapi fan-out",
+    "outside": "whether the JSON/SSZ round trip inside core.cloneJSONMarshaler / cloneSSZMarshaler is deep (stub: structural deep copy); Clone bodies of the large versioned types (proposals, aggregate-and-proofs, registrations) are not executed (generic deep-copy stub); versioned types other than their phase0 form; fetcher / scheduler / validatorapi fan-out",
     "assumptions": [
         "harness SignedData types with reference semantics make a missing Clone visible as shared memory",
-        "Clone() of charon core data types = structural deep copy",
+        "Clone() of charon core data types = structural deep copy, except in VerifC18Clone where the type's own Clone body runs and only core.cloneJSONMarshaler / cloneSSZMarshaler are deep-copy stubs",
     ],
 }
 
@@ -464,6 +482,7 @@ CHECKS["C10"] = {
         {"pkg": "./core/validatorapi", "harness": "VerifC10VapiSync", "params": {"m": 2, "vals": [5, 9, 6, 13]}},
         {"pkg": "./core/validatorapi", "harness": "VerifC10VapiExit", "params": {"val": [1, 2, 3]}},
         {"pkg": "./core/validatorapi", "harness": "VerifC10VapiAtt", "params": {"val": [1, 2, 3]}},
+        {"pkg": "./core", "harness": "VerifGater", "params": {"slotdur_ms": [12000, 8192], "clockbits": 46}},
     ],
     "thorough": [
         {"harness": "VerifC10Peer", "params": {"second": [0, 1]}, "redirects": _C10R, "cross": True},
@@ -473,9 +492,10 @@ CHECKS["C10"] = {
         {"pkg": "./core/validatorapi", "harness": "VerifC10VapiSync", "params": {"m": 2, "vals": [5, 9, 6, 13]}, "cross": True},
         {"pkg": "./core/validatorapi", "harness": "VerifC10VapiExit", "params": {"val": [1, 2, 3]}, "cross": True},
         {"pkg": "./core/validatorapi", "harness": "VerifC10VapiAtt", "params": {"val": [1, 2, 3]}, "cross": True},
+        {"pkg": "./core", "harness": "VerifGater", "params": {"slotdur_ms": [12000, 4000], "clockbits": [46, 52]}, "timeout_ms": 900000, "case_timeout_s": 4000},
     ],
     "bounds": {
-        "quick": "validator-client side: the real validatorapi.Component (NewComponent, verifyPartialSig) for SubmitSyncCommitteeMessages (1-2 messages), SubmitVoluntaryExit and SubmitAttestations (one Electra attestation): the named validator concrete per case (two in the lock, one not), slot / content / epoch and every ingredient of what the signature was made over (key id, content, fork epoch, validity) symbolic: accepted, and subscribers called, exactly when the signature verifies for the object's own root, domain and epoch under THIS node's public share; peer side: one peer message with one partial signature; validator (two in the lock, one unknown), claimed share index (any byte), signed content, epoch (fork change at epoch 100), domain name (attester / randao / exit), slot (gated >= 200) and every ingredient of what the signature was actually made over (key, content, domain, epoch, validity) symbolic, a symbolically failing epoch lookup, optionally a second entry of another validator that is valid or not; once with a minimal Eth2SignedData type, once with the real core.SignedRandao, once with real core.SignedSyncMessage objects (slot-based epoch lookup through a beacon client whose first Spec call may fail; one or two validators in the set)",
+        "quick": "duty gater: the real core.NewDutyGater closure with a symbolic clock and a symbolic 64-bit wire slot and type (allowed exactly when the type is valid and the epoch is at most two ahead); validator-client side: the real validatorapi.Component (NewComponent, verifyPartialSig) for SubmitSyncCommitteeMessages (1-2 messages), SubmitVoluntaryExit and SubmitAttestations (one Electra attestation): the named validator concrete per case (two in the lock, one not), slot / content / epoch and every ingredient of what the signature was made over (key id, content, fork epoch, validity) symbolic: accepted, and subscribers called, exactly when the signature verifies for the object's own root, domain and epoch under THIS node's public share; peer side: one peer message with one partial signature; validator (two in the lock, one unknown), claimed share index (any byte), signed content, epoch (fork change at epoch 100), domain name (attester / randao / exit), slot (gated >= 200) and every ingredient of what the signature was actually made over (key, content, domain, epoch, validity) symbolic, a symbolically failing epoch lookup, optionally a second entry of another validator that is valid or not; once with a minimal Eth2SignedData type, once with the real core.SignedRandao, once with real core.SignedSyncMessage objects (slot-based epoch lookup through a beacon client whose first Spec call may fail; one or two validators in the set)",
         "thorough": "same, both solvers",
     },
     "outside": "the other validator-client handlers (Proposal/randao, SubmitProposal incl. propDataMatchesDuty, aggregate attestations, selections, sync contributions, registrations) and pre-Electra attestations (validator looked up through the duty definition); the wire decoding core.ParSignedDataSetFromProto (redirected to the set under test; C14); the other real Eth2SignedData types' Epoch/DomainName/MessageRoot implementations; the BLS algebra (ideal Verify plugged in through tbls.SetImplementation)",
